@@ -1,6 +1,7 @@
 package checks
 
 import (
+	"bytes"
 	"crypto/sha256"
 	"crypto/sha512"
 	"encoding/json"
@@ -188,6 +189,26 @@ func c06Values(c *fw.Case, n int) {
 			got2, err := hashing.CalculateModelMultihash(raw, uint(code))
 			if err != nil || got2 != want {
 				c.Failf("calc-mismatch-bytes", map[string]interface{}{"bytes": string(raw), "code": code, "expected": want, "got": got2, "err": fmt.Sprint(err)}, "CalculateModelMultihash(bytes,%d) = %q, reference %q", code, got2, want)
+			}
+			// the caller's buffer is the caller's: filled with another model of the same length (one character of a name or text changed
+			// in place) and hashed again, it hashes as what it holds now - and validates against nothing else
+			if code == 18 {
+				buf := oracle.MustJCS(map[string]interface{}{"model": v, "tag": "a" + fmt.Sprint(r.Intn(1000))})
+				h1, e1 := hashing.CalculateModelMultihash(buf, uint(code))
+				at := bytes.Index(buf, []byte(`"tag":"a`)) + 7
+				buf[at] = 'b'
+				var edited interface{}
+				json.Unmarshal(buf, &edited)
+				wantEdited, _ := oracle.ModelHash(code, oracle.MustGeneric(edited))
+				h2, e2 := hashing.CalculateModelMultihash(buf, uint(code))
+				c.Count("buffer-reused-for-another-model", 1)
+				c.Evals(3)
+				if e1 != nil || e2 != nil || h2 != wantEdited || h1 == h2 {
+					c.Failf("stale-hash-for-reused-buffer", map[string]interface{}{"buffer_now": string(buf), "hash_before_edit": h1, "hash_after_edit": h2, "expected_after_edit": wantEdited, "err": fmt.Sprint(e1, e2)},
+						"a byte buffer hashed, edited in place and hashed again does not hash as its new content")
+				} else if hashing.IsValidModelMultihash(buf, h1) == nil {
+					c.Failf("stale-hash-for-reused-buffer", map[string]interface{}{"buffer_now": string(buf), "hash_before_edit": h1}, "the edited buffer validates against the hash of its previous content")
+				}
 			}
 			// prefix queries
 			mc, err := hashing.GetMultihashCode(want)
